@@ -5,6 +5,7 @@
 
 #include <map>
 #include <memory>
+#include <sstream>
 
 #include "global.hpp"
 #include "mutex_art.hpp"
@@ -14,7 +15,8 @@
 
 namespace sim::mtx {
 
-enum MKind { M_GET = 1, M_INSERT = 2, M_REMOVE = 3, M_EMPTY = 4, M_CLEAR = 5, M_SCAN = 6, M_SCAN_FROM = 7, M_SCAN_RANGE = 8 };
+enum MKind { M_GET = 1, M_INSERT = 2, M_REMOVE = 3, M_EMPTY = 4, M_CLEAR = 5, M_SCAN = 6, M_SCAN_FROM = 7, M_SCAN_RANGE = 8, M_DUMP = 9, M_MEMUSE = 10, M_NODECOUNTS = 11 };
+// dump: dump(ostream) into a string; memuse / nodecounts: statistics getters, which must report a state the index had between two operations
 // Op: key,key2; insert: a = value id, b = length; scans: a = fwd, b = halt; get: c = number of re-reads while the handle is held
 
 template <class Key> struct KeyConv;
@@ -28,6 +30,9 @@ template <> struct KeyConv<unodb::key_view> {
 template <class Key>
 struct Runner {
   using Db = unodb::mutex_db<Key, unodb::value_view>;
+
+  struct Committed { uint64_t stamp, bytes, blocks; };
+  static inline std::vector<Committed>* committed = nullptr;
 
   static void body(Db* db, const Case* c, int tid, std::vector<MapOp>* log) {
     const auto& ops = c->threads[static_cast<size_t>(tid - 1)];
@@ -53,8 +58,7 @@ struct Runner {
             const auto* p = g.first->data();
             const size_t n = g.first->size();
             std::string first(reinterpret_cast<const char*>(p), n);
-            ev.value = parse_value(first.data(), first.size());
-            if (ev.value == 0) ev.value = UINT64_MAX;
+            ev.value = value_identity(first.data(), first.size());
             for (int64_t rr = 0; rr < o.c; rr++) {
               point(K_HARNESS, p);  // writers are free to try while the handle is held
               const Block* b = find_block(p);
@@ -66,7 +70,7 @@ struct Runner {
           break;
         }
         case M_INSERT: {
-          ev.type = MapOp::INSERT; ev.value = static_cast<uint64_t>(o.a);
+          ev.type = MapOp::INSERT; ev.value = value_identity_of(static_cast<uint64_t>(o.a), static_cast<size_t>(o.b));
           ev.call = stamp();
           try {
             ev.ok = db->insert(k, unodb::value_view{reinterpret_cast<const std::byte*>(val.data()), val.size()});
@@ -101,14 +105,47 @@ struct Runner {
           ev.ret = stamp();
           break;
         }
+        case M_DUMP: {
+          ev.threw = true;  // no result to explain: left out of the linearizability search
+          ev.call = stamp();
+          std::ostringstream os;
+          db->dump(os);
+          ev.ret = stamp();
+          break;
+        }
+        case M_MEMUSE:
+        case M_NODECOUNTS: {
+          ev.threw = true;  // judged here, against the states the index had between operations
+#ifdef UNODB_DETAIL_WITH_STATS
+          ev.call = stamp();
+          uint64_t got = 0;
+          if (o.kind == M_MEMUSE) got = db->get_current_memory_use();
+          else { const auto n = db->get_node_counts(); for (auto v : n) got += v; }
+          ev.ret = stamp();
+          // legal: the value at the last release of the index mutex before the call, or at any release up to the return
+          bool legal = false;
+          std::string seen;
+          for (size_t k = committed->size(); k-- > 0;) {
+            const Committed& cm = (*committed)[k];
+            if (cm.stamp > ev.ret) continue;
+            const uint64_t v = o.kind == M_MEMUSE ? cm.bytes : cm.blocks;
+            if (v == got) legal = true;
+            seen += " " + std::to_string(v);
+            if (cm.stamp < ev.call) break;  // the state in force when the call was made
+          }
+          if (!legal)
+            die("stats-getter-not-atomic", "t" + std::to_string(tid) + ".op" + std::to_string(i) + (o.kind == M_MEMUSE ? ": get_current_memory_use() = " : ": sum of get_node_counts() = ") + std::to_string(got) +
+                                               ", but between operations the index only ever had:" + seen);
+#endif
+          break;
+        }
         default: {
           ev.type = o.kind == M_SCAN ? MapOp::SCAN : (o.kind == M_SCAN_FROM ? MapOp::SCAN_FROM : MapOp::SCAN_RANGE);
           ev.fwd = o.a != 0; ev.halt = o.b;
           auto fn = [&](const unodb::visitor<typename Db::iterator>& v) {
             const auto kv = v.get_key();
             const auto vv = v.get_value();
-            uint64_t id = parse_value(vv.data(), vv.size());
-            if (id == 0) id = UINT64_MAX;
+            const uint64_t id = value_identity(vv.data(), vv.size());
             ev.visited.emplace_back(std::string(reinterpret_cast<const char*>(kv.data()), kv.size()), id);
             return ev.halt > 0 && static_cast<int64_t>(ev.visited.size()) >= ev.halt;
           };
@@ -136,11 +173,18 @@ struct Runner {
     MapState init;
     for (auto& o : c.prefill) {
       const std::string val = make_value(static_cast<uint64_t>(o.a), static_cast<size_t>(o.b));
-      if (db->insert(KeyConv<Key>::make(o.key), unodb::value_view{reinterpret_cast<const std::byte*>(val.data()), val.size()})) init[o.key] = static_cast<uint64_t>(o.a);
+      if (db->insert(KeyConv<Key>::make(o.key), unodb::value_view{reinterpret_cast<const std::byte*>(val.data()), val.size()})) init[o.key] = value_identity_of(static_cast<uint64_t>(o.a), static_cast<size_t>(o.b));
     }
     std::vector<std::vector<MapOp>> logs(c.threads.size());
     Db* dbp = db.get();
     const Case* cp = &c;
+    // every state the index has between two operations: sampled whenever the index mutex is about to be released
+    std::vector<Committed> states;
+    states.reserve(256);
+    committed = &states;
+    auto sample = [&states] { int nb = 0; const size_t bytes = live_bytes(&nb); states.push_back({stamp(), bytes, static_cast<uint64_t>(nb)}); };
+    sample();
+    set_mutex_unlock_callback(sample);
     concurrent_begin();
     for (size_t t = 0; t < c.threads.size(); t++) {
       auto* lg = &logs[t];
@@ -168,7 +212,7 @@ struct Runner {
       std::vector<std::pair<std::string, uint64_t>> seen;
       db->scan([&](const unodb::visitor<typename Db::iterator>& v) {
         const auto kv = v.get_key(); const auto vv = v.get_value();
-        seen.emplace_back(std::string(reinterpret_cast<const char*>(kv.data()), kv.size()), parse_value(vv.data(), vv.size()));
+        seen.emplace_back(std::string(reinterpret_cast<const char*>(kv.data()), kv.size()), value_identity(vv.data(), vv.size()));
         return false;
       }, true);
       // the final content must be explained by SOME linearization; the one found may differ from another valid one
@@ -179,6 +223,8 @@ struct Runner {
         fail("final-state", "the content found by a scan after the run (" + std::to_string(seen.size()) + " entries) is not the outcome of any linearization of the history");
     }
     concurrent_end();
+    set_mutex_unlock_callback(nullptr);
+    committed = nullptr;
     db.reset();
     int nb = 0;
     live_bytes(&nb);
